@@ -141,7 +141,15 @@ func (x *Exec) loopMods(st *State, fn *ssa.Function, blocks map[*ssa.BasicBlock]
 					if pureNative(key) {
 						continue
 					}
-					if key == "encoding/json.Unmarshal" || key == "(*sync.Once).Do" {
+					if key == "encoding/json.Unmarshal" {
+						// havocs the object the target points to: the field classes of its static type
+						mods["gg:$decoded"] = true
+						if !x.structClassesOf(st, c.Args[1], mods) {
+							all = true
+						}
+						continue
+					}
+					if key == "(*sync.Once).Do" {
 						all = true
 						continue
 					}
@@ -153,7 +161,11 @@ func (x *Exec) loopMods(st *State, fn *ssa.Function, blocks map[*ssa.BasicBlock]
 						}
 						continue
 					}
-					if callee.Pkg != nil && strings.HasPrefix(callee.Pkg.Pkg.Path(), modPath) && callee.Blocks != nil {
+					cpkg := callee.Pkg
+					if cpkg == nil && callee.Origin() != nil {
+						cpkg = callee.Origin().Pkg
+					}
+					if cpkg != nil && strings.HasPrefix(cpkg.Pkg.Path(), modPath) && callee.Blocks != nil {
 						scanFn(callee, nil, d+1)
 						continue
 					}
@@ -358,6 +370,12 @@ func (x *Exec) loopEnter(st *State, fr *Frame, h *ssa.BasicBlock, prev *ssa.Basi
 		}
 		fr.vals[phi] = st.freshVal(hintOf(phi.Comment, "phi"), phi.Type())
 	}
+	// the function's own frame condition is maintained as an implicit loop invariant for the havoc'd classes
+	if fr.isTop && x.fc != nil && !x.fc.ModAll && x.fc.Kind != "closure" && !all {
+		for _, fg := range x.frameGoals(st, x.fc, x.entryEnv, mods) {
+			st.assume(fg[1])
+		}
+	}
 	// assume the invariants for the havoc'd state
 	x.assumeInvariants(st, fr, h, lc)
 	x.runInstrs(st, fr, h, prev, 0, k)
@@ -398,4 +416,48 @@ func (x *Exec) loopBackEdge(st *State, fr *Frame, h *ssa.BasicBlock, prev *ssa.B
 		}
 	}
 	x.loopInvariants(st, fr, h, lc, "inv-preserve")
+	if fr.isTop && x.fc != nil && !x.fc.ModAll && x.fc.Kind != "closure" {
+		blocks := loopBlocks(h)
+		mods, all := x.loopMods(st, fr.fn, blocks, 0)
+		if !all {
+			for _, fg := range x.frameGoals(st, x.fc, x.entryEnv, mods) {
+				x.oblige(st, "inv-preserve", fmt.Sprintf("loop%d", loopOrdinal(fr.fn, h)), "frame:"+fg[0], nil, fg[1], h.Instrs[0].Pos(), "loop keeps the function's frame: "+fg[0])
+			}
+		}
+	}
+}
+
+// structClassesOf adds the heap classes of the struct a (possibly interface-wrapped) pointer value points to.
+func (x *Exec) structClassesOf(st *State, v ssa.Value, mods map[string]bool) bool {
+	if mi, ok := v.(*ssa.MakeInterface); ok {
+		v = mi.X
+	}
+	p, ok := v.Type().Underlying().(*types.Pointer)
+	if !ok {
+		return false
+	}
+	var add func(t types.Type, depth int) bool
+	add = func(t types.Type, depth int) bool {
+		s, ok := t.Underlying().(*types.Struct)
+		if !ok || depth > 4 {
+			return false
+		}
+		for i := 0; i < s.NumFields(); i++ {
+			ft := s.Field(i).Type()
+			if _, isS := ft.Underlying().(*types.Struct); isS {
+				if !add(ft, depth+1) {
+					return false
+				}
+				continue
+			}
+			if sortOf(ft) == "" {
+				return false
+			}
+			c := fieldClass(t, i)
+			x.w.declClass(c, "(Array Int "+sortOf(ft)+")")
+			mods[c] = true
+		}
+		return true
+	}
+	return add(p.Elem(), 0)
 }
